@@ -295,6 +295,19 @@ def decimalOfStr (k : IntClasses) (s : Text) : Outcome Dec :=
   | some d => .ok d
   | none => .escape .decimalError
 
+/-- the values of `ipm_info`'s result dictionary: booleans and texts -/
+inductive InfoVal
+  | bool (b : Bool)
+  | str (t : Text)
+  deriving Repr, DecidableEq
+
+def enumerateGo {α} : Int → List α → List (Int × α)
+  | _, [] => []
+  | i, x :: xs => (i, x) :: enumerateGo (i + 1) xs
+
+/-- `enumerate(xs)` -/
+def enumerate {α} (xs : List α) : List (Int × α) := enumerateGo 0 xs
+
 /-- `len(v)` -/
 def sbLen : SB → Int
   | .str t => (t.length : Int)
